@@ -206,6 +206,38 @@ static std::string cmd_session(const std::vector<std::string>& a, bool verbose) 
     return o.str();
 }
 
+// SESSIONX <cfg: 7 fields> <cmds over s r x> <tok1,tok2,...>: a walk in which x is `exec tok1 tok2 ...` (valid tokens only);
+// marks + accepted, - refused, ! failed; the full state is hashed after every command (a failure leaves the session in place)
+static std::string cmd_sessionx(const std::vector<std::string>& a) {
+    RunCfg c = parse_cfg(a);
+    std::string cmds = a.size() > 8 ? a[8] : "";
+    std::vector<std::string> toks = a.size() > 9 && a[9] != "-" ? split(a[9], ',') : std::vector<std::string>();
+    Instance inst; std::string why;
+    if (!setup(inst, c, why)) return why;
+    uint64_t hh = FNV_INIT; std::string marks;
+    for (char ch : cmds) {
+        char m = '-';
+        if (ch == 's') {
+            if (!inst.at_end()) m = inst.step() ? '+' : '!';
+        } else if (ch == 'r') {
+            m = (!inst.at_start() && inst.rewind()) ? '+' : '-';
+        } else {
+            std::vector<char*> argv;
+            for (auto& t : toks) argv.push_back(strdup(t.c_str()));
+            bool ok = false;
+            try { ok = argv.size() > 0 && inst.eval(argv.size(), argv.data()); } catch (const std::exception&) { ok = false; }
+            for (auto p : argv) free(p);
+            m = argv.empty() ? '-' : (ok ? '+' : '!');
+        }
+        marks += m;
+        std::string fs = full_state(inst);
+        char b[32]; snprintf(b, 32, "%016llx", (unsigned long long)fnv1a(FNV_INIT, fs));
+        hh = fnv1a(hh, b);
+    }
+    char b[32]; snprintf(b, 32, "%016llx", (unsigned long long)hh);
+    return "marks=" + marks + " hs=" + b + " state=" + full_state(inst);
+}
+
 // EXEC <cfg: sigver flags z w script stack succ> <nsteps> <tok1,tok2,...>
 // session advanced by nsteps, then `exec tok1 tok2 ...` (Instance::eval as fn_exec calls it)
 static std::string cmd_exec(const std::vector<std::string>& a) {
@@ -483,6 +515,7 @@ static std::string dispatch(const std::string& line) {
         if (a[0] == "RUN") return cmd_run(a, false);
         if (a[0] == "RUNV") return cmd_run(a, true);
         if (a[0] == "EXEC" || a[0] == "EXECF") return cmd_exec(a);
+        if (a[0] == "SESSIONX") return cmd_sessionx(a);
         if (a[0] == "FLAGS") return cmd_flags(a);
         if (a[0] == "TCE") return cmd_tce(a);
         { auto it = extra_cmds().find(a[0]); if (it != extra_cmds().end()) return it->second(a); }
